@@ -227,8 +227,12 @@ class TagSelection(Selection):
           if any(issubclass(tag, self.tag) for tag in tags):
             to_set = value if not deepcopy else copy.deepcopy(value)
             if isinstance(name, int):
-              # Positional-only and *args arguments are addressed by index.
-              node_value[name] = to_set
+              # Positional-only and *args arguments are addressed by index. A
+              # tagged *args slot that has no value yet is the next free slot.
+              if name == len(node_value[:]):
+                node_value[name:name] = [to_set]
+              else:
+                node_value[name] = to_set
             else:
               setattr(node_value, name, to_set)
 
